@@ -699,3 +699,66 @@ Proof.
   unfold expired in B. apply andb_prop in B. destruct B as [B1 B2].
   apply Z.ltb_lt in B1. apply Z.ltb_lt in B2. split; assumption.
 Qed.
+
+(* ================================================================== *)
+(* WP: mr / fx worker pools                                             *)
+
+Record WInv (n : nat) (s : wstate) : Prop := mkWInv
+  { wi_cap : wcap s = n;
+    wi_cnt : wc s = wlive s + whold s;
+    wi_le : wc s <= n;
+    wi_wg : wwg s = sumf w_counted (wtasks s) }.
+
+Lemma winit_inv v n items : WInv n (winit v n items).
+Proof. constructor; cbn; auto; lia. Qed.
+
+Lemma wstep_inv n s x s' : WInv n s -> wstep s x = Some s' -> WInv n s'.
+Proof.
+  intros [A B C D] H. unfold wstep in H. unfold wlive, whold in *.
+  destruct x as [|k].
+  - destruct (wd s) eqn:Ed;
+      repeat match type of H with
+             | context [if Nat.ltb ?a ?b then _ else _] => destruct (Nat.ltb_spec a b)
+             | context [match ?x with _ => _ end] => destruct x eqn:?
+             end;
+      inversion H; subst s'; clear H;
+      constructor; unfold wlive, whold; cbn [wcap wc wwg wtasks wd wset_d];
+      rewrite ?sumf_app; cbn [sumf w_live w_counted wst]; try lia.
+  - destruct (nth_error (wtasks s) k) as [tk|] eqn:Hk; [|discriminate].
+    pose proof (sumf_upd_nth w_live (wtasks s) k) as U.
+    pose proof (sumf_upd_nth w_counted (wtasks s) k) as V.
+    destruct (wst tk) eqn:Et; inversion H; subst s'; clear H;
+      match goal with |- context [upd_nth (wtasks s) k ?t'] => specialize (U t' tk Hk); specialize (V t' tk Hk) end;
+      assert (E1 : w_live tk = match wst tk with WDn => 0 | _ => 1 end) by reflexivity;
+      assert (E2 : w_counted tk = match wst tk with WSp | WRun => 1 | _ => 0 end) by reflexivity;
+      rewrite Et in E1, E2; rewrite E1 in U; rewrite E2 in V; cbn [w_live w_counted wst] in U, V;
+      constructor; unfold wlive, whold; cbn [wcap wc wwg wtasks wd]; try lia.
+Qed.
+
+Lemma wexec_inv v n items sched : WInv n (wexec v n items sched).
+Proof. unfold wexec. apply run_inv; [intros; eapply wstep_inv; eauto | apply winit_inv]. Qed.
+
+Lemma wp_cap_l : forall v n items sched,
+  let s := wexec v n items sched in
+  wrunning s <= wlive s /\ wlive s + whold s = wc s /\ wc s <= n.
+Proof.
+  intros v n items sched s. destruct (wexec_inv v n items sched) as [A B C D]. fold s in A, B, C, D.
+  split; [|split; [lia|exact C]]. unfold wrunning, wlive. apply sumf_le.
+  intros tk. unfold w_running, w_live. destruct (wst tk); lia.
+Qed.
+
+Lemma wp_no_leak_l : forall v n items sched,
+  let s := wexec v n items sched in
+  (forall tk, In tk (wtasks s) -> wst tk = WDn) -> whold s = 0 -> wc s = 0 /\ wwg s = 0.
+Proof.
+  intros v n items sched s Ht Hh. destruct (wexec_inv v n items sched) as [A B C D]. fold s in A, B, C, D.
+  assert (L : wlive s = 0).
+  { unfold wlive. apply sumf_zero. intros tk Hin. unfold w_live. rewrite (Ht tk Hin). reflexivity. }
+  assert (W : sumf w_counted (wtasks s) = 0).
+  { apply sumf_zero. intros tk Hin. unfold w_counted. rewrite (Ht tk Hin). reflexivity. }
+  lia.
+Qed.
+
+(* at the cap the dispatcher cannot take a slot: no further worker is started *)
+Lemma wp_blocked_l : forall s it, wd s = DAcq it -> wc s = wcap s -> wstep s 0 = None.
+Proof. intros s it Hd Hc. unfold wstep. rewrite Hd, Hc, Nat.ltb_irrefl. reflexivity. Qed.
